@@ -82,7 +82,10 @@ const FIXED_LINES: &[&str] = &[
 ];
 
 fn junk(rng: &mut Rng) -> String {
-    match rng.below(16) {
+    match rng.below(19) {
+        16 => "\u{0}".into(),
+        17 => "\u{1b}[31mgo\u{1b}[0m".into(),
+        18 => "\u{7f}\u{8}".into(),
         0 => "-1".into(),
         1 => "99999999999999999999999999999".into(),
         2 => "abc".into(),
